@@ -9,13 +9,28 @@ RULE = ('Hypothesis-generated histories (see C01) weighted towards worker messag
         'be in the allowed lifecycle relation (terminal absorbing, Pending never jumps) -- observed at every transaction boundary, because '
         'one loop-body op runs many transactions -- and for every job group '
         'job_groups_n_jobs_in_complete_states == counts of terminal jobs in its subtree (so a job is tallied exactly once). '
-        'Non-trivial: a duplicated completion, or a completion/start for a non-current attempt, or a completion after the job is terminal.')
+        'A complete / started / unschedule message naming an attempt other than the job\'s current attempt must leave the job row\'s state and attempt unchanged. Non-trivial: a duplicated completion, or a completion/start for a non-current attempt, or a completion after the job is terminal.')
 ASSUMPTIONS = ['serializable at transaction granularity on minimysql', 'state observed after each op, not inside a transaction']
 TRUSTED = ['vlib/minimysql', 'vlib/batchsim', 'vlib/batchsim/oracle.py']
 
 
 def step(w, prev, cur, op, res):
-    return O.check_terminal_absorbing(prev, cur) or O.check_tallies(cur)
+    f = O.check_terminal_absorbing(prev, cur) or O.check_tallies(cur)
+    if f:
+        return f
+    # stale-attempt messages: a worker / driver message that names an attempt other than the job's current one never moves the job
+    # ("a Creating or Running job may fall back to Ready when ITS attempt is withdrawn"; mark_job_complete / unschedule_job /
+    # mark_job_started attempt-id checks).  A job without a current attempt (Ready) may be completed by a late report.
+    if op[0] in ('complete', 'started', 'unschedule') and res.get('job') is not None and res.get('attempt_id') is not None:
+        k = tuple(res['job'])
+        pj, cj = prev.jobs.get(k), cur.jobs.get(k)
+        if pj is not None and cj is not None and pj['attempt_id'] is not None and pj['attempt_id'] != res['attempt_id']:
+            w.saw_stale_attempt_message = True
+            if pj['state'] != cj['state'] or pj['attempt_id'] != cj['attempt_id']:
+                return [('stale-attempt-moved-job', 'a message for an attempt that is not the job\'s current attempt never changes the job',
+                         f'{op[0]} for attempt {res["attempt_id"]} moved job {k} from {pj["state"]}/{pj["attempt_id"]} to '
+                         f'{cj["state"]}/{cj["attempt_id"]}')]
+    return []
 
 
 def extra(w):
@@ -31,6 +46,8 @@ def extra(w):
             out.add('fresh_attempt_started')
         if op[0] == 'schedule' and len(op) > 3 and r.get('ok'):
             out.add('racing_schedule')
+    if getattr(w, 'saw_stale_attempt_message', False):
+        out.add('stale_attempt_message_for_job_with_other_current_attempt')
     return out
 
 
